@@ -83,9 +83,11 @@ func (publisherSelf *PublisherDef[T]) Publish(result T) {
 	publisherSelf.doSubscribeSafe(func() {
 		subscribers = publisherSelf.subscribers
 	})
+	verifPoint("p.publish.snap", publisherSelf)
 
 	for _, s := range subscribers {
 		s := s // doSub may run later on the SubscribeOn handler: it must keep its own subscription
+		verifPoint("p.publish.deliver", publisherSelf)
 		if s.OnNext != nil {
 
 			doSub := func() {
